@@ -161,3 +161,15 @@ Theorem C03_obs_iter_sees_later_write : exists c ka kb kc v1 v2 s,
      LApply [(kb, Some v2); (kc, Some v2)]; LIterRead 0 kc (Some v2)] = Some s').
 Proof. exact TxnAtomicProofs.iter_sees_later_write. Qed.
 Print Assumptions C03_obs_iter_sees_later_write.
+
+(* ---------- why D13 stays a known finding: no recovery procedure can repair it ---------- *)
+(* a committed {a,b} stopped cleanly and a committed {a,b,c} whose last log write was torn after
+   two entries leave the SAME disk state; any recovery returns the same for both *)
+Theorem C03_torn_needs_commit_marker : exists c opsA opsB n txA txB extra,
+  acked (init c) opsA = [WBatch txA] /\ acked (init c) opsB = [WBatch txB] /\
+  txB = txA ++ [extra] /\
+  lost_log (run c opsA) = false /\ lost_log (run c opsB) = false /\
+  crash_torn (run c opsB) n = crash (run c opsA) (wal_next (run c opsA)) /\
+  forall rec : st -> st, rec (crash_torn (run c opsB) n) = rec (crash (run c opsA) (wal_next (run c opsA))).
+Proof. exact TxnAtomicProofs.torn_needs_commit_marker. Qed.
+Print Assumptions C03_torn_needs_commit_marker.
